@@ -197,3 +197,58 @@ def preamble(rng, nonascii=False):
         parts.append("// trailing line without newline")
         return "\n".join(parts)
     return "\n".join(parts) + "\n"
+
+
+# ---------------------------------------------------------------- FFIs that include other FFIs
+
+BUILD_SRC = '''
+def build_ffi(inp):
+    """inp: {cdef, modname, preamble, incs, nodes}; nodes: earlier FFIs [{cdef, modname, preamble, incs}] that may be
+    included (by index) by later nodes and by the root -- chains, siblings, diamonds"""
+    import cffi
+    made = []
+    for n in inp.get("nodes", []):
+        f = cffi.FFI()
+        for j in n["incs"]:
+            f.include(made[j])
+        f.cdef(n["cdef"])
+        f.set_source(n["modname"], n["preamble"])
+        made.append(f)
+    ffi = cffi.FFI()
+    for j in inp.get("incs", []):
+        ffi.include(made[j])
+    ffi.cdef(inp["cdef"])
+    ffi.set_source(inp["modname"], inp["preamble"])
+    return ffi
+'''
+_ns = {}
+exec(BUILD_SRC, _ns)
+build_ffi = _ns["build_ffi"]
+
+SHAPES = {  # node -> nodes it includes; last entry = the root
+    "siblings2": [[], [], [0, 1]],
+    "siblings4": [[], [], [], [], [0, 1, 2, 3]],
+    "chain": [[], [0], [1], [2]],
+    "diamond": [[], [0], [0], [1, 2]],
+    "diamond+": [[], [0], [0], [], [1, 2, 3, 0]],
+}
+
+
+def gen_includes(rng, flavour, shape, tag):
+    """an input whose root FFI includes 1-4 other FFIs of the same target kind"""
+    words = ["alpha", "beta", "gamma", "delta", "eps", "zeta", "eta", "theta", "iota", "kappa", "lam", "mu", "nu", "xi"]
+    rng.shuffle(words)
+    graph = SHAPES[shape]
+    nodes = []
+    for k, incs in enumerate(graph):
+        nm = "%s_%s%d" % (tag, words[k], rng.randint(0, 99))
+        uses = "".join("int %s_use%d(%s_s *);\n" % (nm, j, nodes[j]["_nm"]) for j in incs)
+        cdef = ("typedef struct { int a; char b[%d]; } %s_s;\nint %s_f(%s_s *, int);\n#define %s_K %d\n%s"
+                % (k + 1, nm, nm, nm, nm.upper(), k + 40, uses))
+        nodes.append({"_nm": nm, "cdef": cdef, "modname": rng.choice(["%s", "pkg.%s", "_%s_cffi"]) % nm,
+                      "preamble": ("/* %s */\n" % nm) if flavour == "api" else None, "incs": list(incs)})
+    root = nodes.pop()
+    for n in nodes:
+        del n["_nm"]
+    return {"cdef": root["cdef"], "modname": root["modname"], "preamble": root["preamble"], "incs": root["incs"],
+            "nodes": nodes, "shape": shape}
